@@ -491,9 +491,13 @@ func (o *ObjectSchema) applySubObjectDefaultValues(propertyID string, property *
 	default:
 		return
 	}
+	// The value found in rawData may be the property's default value, which is shared by every call (it comes
+	// from the object's default value cache); the sub-object's defaults must go into a copy of it.
 	data := map[string]any{}
-	if _, ok := rawData[propertyID]; ok {
-		data = rawData[propertyID].(map[string]any)
+	if existingData, ok := rawData[propertyID]; ok {
+		for k, v := range existingData.(map[string]any) {
+			data[k] = v
+		}
 	}
 	subObjectDefaults := subObject.GetDefaults()
 	for k, v := range subObjectDefaults {
